@@ -80,6 +80,64 @@ def calls_of(name, modules=None):
     return scan(pred, modules)
 
 
+_PARENTS = {}
+
+
+def _dynamic_attr_names(call, modules):
+    """setattr(obj, NAME, v) where NAME is a parameter of the enclosing function: the set of string literals passed for that parameter at every call site
+    of the function (by bare name or attribute name) in the scanned modules, or None when some call site passes something else (then: any attribute)"""
+    a = call.args[1]
+    if not isinstance(a, ast.Name):
+        return None
+    key = tuple(modules or ())
+    if key not in _PARENTS:
+        idx = {}
+        for m in modules or repo.all_repo_modules():
+            try:
+                tree = repo.module_ast(m)
+            except (FileNotFoundError, SyntaxError):
+                continue
+            for fn in ast.walk(tree):
+                if isinstance(fn, (ast.FunctionDef, ast.AsyncFunctionDef)):
+                    for n in ast.walk(fn):
+                        idx.setdefault(id(n), fn)          # innermost wins below
+            for fn in ast.walk(tree):
+                if isinstance(fn, (ast.FunctionDef, ast.AsyncFunctionDef)):
+                    for n in _own_nodes(fn):
+                        idx[id(n)] = fn
+        _PARENTS[key] = idx
+    fn = _PARENTS[key].get(id(call))
+    if fn is None:
+        return None
+    params = [p.arg for p in fn.args.posonlyargs + fn.args.args]
+    if a.id not in params:
+        return None
+    pos = params.index(a.id)
+    names = set()
+    found = False
+    for m in modules or repo.all_repo_modules():
+        try:
+            tree = repo.module_ast(m)
+        except (FileNotFoundError, SyntaxError):
+            continue
+        for c in ast.walk(tree):
+            if isinstance(c, ast.Call) and ((isinstance(c.func, ast.Name) and c.func.id == fn.name) or (isinstance(c.func, ast.Attribute) and c.func.attr == fn.name)):
+                found = True
+                # a method is called without its self argument
+                off = 1 if (isinstance(c.func, ast.Attribute) and params and params[0] in ('self', 'cls')) else 0
+                arg = None
+                if pos - off < len(c.args) and pos - off >= 0:
+                    arg = c.args[pos - off]
+                for kw in c.keywords:
+                    if kw.arg == a.id:
+                        arg = kw.value
+                if isinstance(arg, ast.Constant) and isinstance(arg.value, str):
+                    names.add(arg.value)
+                else:
+                    return None
+    return names if found else None
+
+
 def attr_stores(attr, modules=None):
     def pred(n):
         targets = []
@@ -89,7 +147,10 @@ def attr_stores(attr, modules=None):
             targets = [n.target]
         elif isinstance(n, ast.Call) and isinstance(n.func, ast.Name) and n.func.id == 'setattr' and len(n.args) >= 2:
             a = n.args[1]
-            return not (isinstance(a, ast.Constant) and a.value != attr)
+            if isinstance(a, ast.Constant):
+                return a.value == attr
+            names = _dynamic_attr_names(n, modules)
+            return names is None or attr in names
         for t in targets:
             for x in ast.walk(t):
                 if isinstance(x, ast.Attribute) and x.attr == attr and isinstance(x.ctx, ast.Store):
